@@ -25,7 +25,8 @@ NEGCTL = {
             ("RestoreStoredLabels", ["A_RestoredWithStoredLabels"]),
             ("HonourAllowInvalid", ["A_RestartSucceedsOrPrescribed"]),
             ("RenameBeforeCommit", ["A_MetaHasDirs"]),
-            ("CleanupScansTemps", ["A_AfterSyncRemoveDirsAreLive", "A_AfterCleanupDirsAreLive"])],
+            ("CleanupScansTemps", ["A_AfterSyncRemoveDirsAreLive", "A_AfterCleanupDirsAreLive"]),
+            ("RestoreMkdirOnlyIfParentMissing", ["A_MetaHasDirs", "A_RemountedExactly", "A_RestartSucceedsOrPrescribed"], "TRUE")],
 }
 K1 = '{"k1"}'
 
@@ -127,7 +128,8 @@ def crash_class_walks(inits, edges):
         if f not in prev:
             continue
         o = e["from"]["op"]
-        key = (o["name"], o["pc"], o["tgt"] != "", o["p"] != "", o["cur"] >= 0, len(o["tasks"]), bool(e["last"].get("bs")))
+        key = (o["name"], o["pc"], o["tgt"] != "", o["p"] != "", o["cur"] >= 0, len(o["tasks"]), bool(e["last"].get("bs")),
+               e["last"].get("d", 0) != 0)      # ... and whether the kill tears a directory (left without fs)
         classes.setdefault(key, []).append(e)
     walks, missing = [], []
     for key in sorted(classes, key=str):
@@ -403,6 +405,8 @@ def check(run, pid):
     run.assumptions += [
         "one caller at a time in Snapshotter.tla; two callers only in the focused configuration Snapshotter2.tla (C08: createSnapshot against Cleanup/Close, bolt writer lock)",
         "bolt commits and rename(2) are atomic; a crash is the disk image between two observable steps (hooks, backend calls)",
+        "a kill inside os.RemoveAll(<id>) of Close / between the two mkdirs of restore is produced from the image taken at the step before by "
+        "removing <id>/fs (resp. creating <id>) in the copy: the partial-RemoveAll / partial-mkdir state is constructed, not caught in the act",
         "the backend is a recording snapshot.FileSystem mounting a real tmpfs (EBUSY semantics of RemoveAll as in production); Check results are imposed per layer",
         "NoRestore is used exactly when the backend survived the crash (cmd/containerd-stargz-grpc/main.go); crashes during restore/Close only with a dying backend",
         "key names and committed/target names are disjoint; Update touches a user label only",
@@ -423,8 +427,9 @@ def check(run, pid):
         thunks.append(lambda ov=ov, what=what: run.tlc_mc("Snapshotter", "Snapshotter_mc.cfg", ov, workers=3, timeout=3000,
                                                           name="Snapshotter_mc.cfg Async=%s %s" % (ov["Async"], what)))
     # vacuity guards: each property-bearing guard of the code switched off must break a formula of this property
-    for const, expect in (NEGCTL[pid] if mcs else []):
-        thunks.append(lambda const=const, expect=expect: run.tlc_negctl("Snapshotter", "Snapshotter_mc.cfg", {const: "FALSE", "Keys": K1}, expect,
+    for nc in (NEGCTL[pid] if mcs else []):
+        const, expect, val = nc[0], nc[1], (nc[2] if len(nc) > 2 else "FALSE")
+        thunks.append(lambda const=const, expect=expect, val=val: run.tlc_negctl("Snapshotter", "Snapshotter_mc.cfg", {const: val, "Keys": K1}, expect,
                                                                         workers=2, timeout=1500, drop=INTERNAL))
     # warm the Go build while TLC runs
     thunks.append(lambda: warm_build(run))
